@@ -11,6 +11,7 @@ mod u3;
 mod u4;
 mod u5;
 mod u6;
+mod u6b;
 mod u8;
 mod u9;
 mod util;
@@ -44,6 +45,8 @@ fn main() {
     ("u5", "replay") => u5::replay(rest),
     ("u6", "find") => u6::find(rest),
     ("u6", "replay") => u6::replay(rest),
+    ("u6b", "find") => u6b::find(rest),
+    ("u6b", "replay") => u6b::replay(rest),
     ("u8", "find") => u8::find(rest),
     ("u8", "replay") => u8::replay(rest),
     ("u9", "find") => u9::find(rest),
